@@ -2,6 +2,7 @@
 package gen
 
 import (
+	"io"
 	"os"
 	"path/filepath"
 	"sync"
@@ -250,4 +251,83 @@ func maxInt(a, b int) int {
 		return a
 	}
 	return b
+}
+
+// Source is an io.Reader over Data that delivers it the way a socket, pipe or serial line does: in
+// pieces of the scheduled sizes (Sched is cycled; entries <= 0 count as 1; an empty schedule delivers
+// everything the caller asks for), never more than the caller's buffer. If FaultAt >= 0, the read
+// that would start at that offset fails once with ErrTransient without consuming anything (a read
+// deadline, EINTR); the data continues afterwards.
+type Source struct {
+	Data    []byte
+	Sched   []int
+	FaultAt int
+	pos, i  int
+	faulted bool
+	Calls   int
+}
+
+// ErrTransient is the error of the injected read fault.
+var ErrTransient = errTransient{}
+
+type errTransient struct{}
+
+func (errTransient) Error() string   { return "injected transient read error" }
+func (errTransient) Timeout() bool   { return true }
+func (errTransient) Temporary() bool { return true }
+
+// NewSource returns a Source without a fault.
+func NewSource(data []byte, sched []int) *Source { return &Source{Data: data, Sched: sched, FaultAt: -1} }
+
+func (s *Source) Read(p []byte) (int, error) {
+	s.Calls++
+	if len(p) == 0 {
+		return 0, nil
+	}
+	if s.FaultAt >= 0 && !s.faulted && s.pos >= s.FaultAt {
+		s.faulted = true
+		return 0, ErrTransient
+	}
+	if s.pos >= len(s.Data) {
+		return 0, io.EOF
+	}
+	n := len(p)
+	if len(s.Sched) > 0 {
+		c := s.Sched[s.i%len(s.Sched)]
+		s.i++
+		if c <= 0 {
+			c = 1
+		}
+		if c < n {
+			n = c
+		}
+	}
+	if s.FaultAt >= 0 && !s.faulted && s.pos < s.FaultAt && s.pos+n > s.FaultAt {
+		n = s.FaultAt - s.pos // stop in front of the fault position
+	}
+	if n > len(s.Data)-s.pos {
+		n = len(s.Data) - s.pos
+	}
+	copy(p, s.Data[s.pos:s.pos+n])
+	s.pos += n
+	return n, nil
+}
+
+// Faulted reports whether the injected fault was delivered.
+func (s *Source) Faulted() bool { return s.faulted }
+
+// SourceSchedule draws a delivery schedule for a Source: nil (everything at once, as bytes.Reader does),
+// all 1-byte, short pieces at the start (inside the container header) and mixed sizes.
+func SourceSchedule(t *rapid.T, label string) []int {
+	switch rapid.IntRange(0, 5).Draw(t, label+"_kind") {
+	case 0, 1:
+		return nil
+	case 2:
+		return []int{1}
+	case 3:
+		// a short first piece (1..5 bytes: inside the 4/6 byte header), then large pieces
+		return []int{rapid.IntRange(1, 5).Draw(t, label+"_first"), 1 << 20, 1 << 20, 1 << 20, 1 << 20, 1 << 20, 1 << 20, 1 << 20}
+	default:
+		return rapid.SliceOfN(rapid.SampledFrom([]int{1, 2, 3, 4, 5, 7, 60, 100, 1000, 4095, 4096, 4097}), 1, 6).Draw(t, label)
+	}
 }
